@@ -46,6 +46,34 @@ theorem C12_partial_received_canon_eq_signed (covered conn : List String) (signe
   unfold stripHop
   rw [hget_foldl_hdel_not_mem hopHeaders _ k (hhop k hk), hget_foldl_hdel_not_mem conn _ k (hconn k hk)]
 
+/-- **What the upstream rebuilds is the signed document minus exactly the nominated lines** (full strength, any
+`Connection` token list): the header part of the received document equals the signed one computed over the covered
+headers the client's `Connection` header did not nominate. A client can make a verifier see a *shorter* document (the open
+finding), never one in which a covered header has a different value. -/
+theorem C12_received_headers_are_signed_minus_nominated (covered conn : List String) (signed : HMap)
+    (hhop : ∀ k ∈ covered, k ∉ hopHeaders) :
+    canonHeaders covered (stripHop conn signed) = canonHeaders (covered.filter (fun k => decide (k ∉ conn))) signed := by
+  unfold canonHeaders
+  induction covered with
+  | nil => rfl
+  | cons k t ih =>
+    have iht := ih (fun k' hk' => hhop k' (List.mem_cons_of_mem _ hk'))
+    have hk : k ∉ hopHeaders := hhop k List.mem_cons_self
+    simp only [List.filterMap_cons, List.filter_cons]
+    by_cases hc : k ∈ conn
+    · have e : hget (stripHop conn signed) k = [] := by
+        unfold stripHop
+        rw [hget_foldl_hdel_not_mem hopHeaders _ k hk]
+        exact hget_foldl_hdel_mem conn _ k hc
+      simp only [e, nonEmpty, List.filter_nil, if_true, hc, not_true_eq_false, decide_false, Bool.false_eq_true, if_false]
+      exact iht
+    · have e : hget (stripHop conn signed) k = hget signed k := by
+        unfold stripHop
+        rw [hget_foldl_hdel_not_mem hopHeaders _ k hk, hget_foldl_hdel_not_mem conn _ k hc]
+      simp only [e, hc, not_false_eq_true, decide_true, if_true, List.filterMap_cons]
+      rw [iht]
+example : canonHeaders ["Authorization", "Date"] (stripHop ["Authorization"] [("Authorization", ["Bearer x"]), ("Date", ["d"])]) = ["d"] := by decide
+
 /-- without that hypothesis the documents differ: a nominated covered header is signed, then stripped -/
 theorem C12_connection_refuted :
     canonRSA ["Authorization"] (stripHop ["Authorization"] [("Authorization", ["Bearer x"])]) "/" "" "" "" ≠
